@@ -121,6 +121,14 @@ def inline_calls(facts, body, should_inline=None, max_depth=3, trait_defaults=Fa
                 _shift_blocks(nt, boff)
             nt.setdefault('inl', mark)
             blocks.append(nb)
+        # a generic helper called with concrete type arguments: its trait-method calls resolve as the extractor computed for
+        # THESE arguments (`mono`), not as "any implementation of the trait"
+        for bb_, res_, ga_ in t.get('mono') or ():
+            ct = blocks[boff + bb_]['t']
+            if ct.get('k') == 'call' and not ct.get('resolved'):
+                if res_:
+                    ct['resolved'] = res_
+                ct['gargs'] = ga_
         for i, a in enumerate(t['args']):  # parameters are _1.._argc of the callee
             blk['s'].append(dict(pos, k='assign', lhs={'l': loff + 1 + i, 'p': []},
                                  rv={'k': 'use', 'op': a}, inl=mark))
